@@ -75,11 +75,25 @@ class SStr(object):
 
 
 class SBytes(object):
-    """bytes as array+length: byte i is arr[i] for 0 <= i < length."""
+    """bytes as array+offset+length: byte i is arr[off+i] for 0 <= i < length."""
 
-    def __init__(self, arr, length):
+    def __init__(self, arr, length, off=0):
         self.arr = arr
         self.length = length  # python int or z3 Int
+        self.off = off        # python int or z3 Int
+
+    def at(self, i):
+        """z3 term of byte i"""
+        if isinstance(self.off, int) and self.off == 0:
+            return z3.Select(self.arr, to_z3_int(i))
+        return z3.Select(self.arr, to_z3_int(self.off) + to_z3_int(i))
+
+    def base_arr(self):
+        """array indexed from 0 (introduces a lambda only when shifted)"""
+        if isinstance(self.off, int) and self.off == 0:
+            return self.arr
+        j = z3.Int(fresh_name("j"))
+        return z3.Lambda([j], z3.Select(self.arr, j + to_z3_int(self.off)))
 
     def __repr__(self):
         return "<SBytes len=%s>" % (self.length,)
@@ -211,37 +225,34 @@ def norm_bool(v):
 
 
 def sb_index(b, i):
-    return z3.Select(b.arr, to_z3_int(i))
+    return b.at(i)
 
 
 def sb_slice(b, lo, hi):
     """b[lo:hi] with 0 <= lo <= hi <= len already established by the caller."""
-    lo_c = concrete_int(lo)
-    if lo_c == 0:
-        arr = b.arr
-    else:
-        j = z3.Int(fresh_name("j"))
-        arr = z3.Lambda([j], z3.Select(b.arr, j + to_z3_int(lo)))
     n = norm_int(to_z3_int(hi) - to_z3_int(lo))
-    return SBytes(arr, n)
+    return SBytes(b.arr, n, norm_int(to_z3_int(b.off) + to_z3_int(lo)))
 
 
 def sb_concat(a, b):
     la = to_z3_int(a.length)
     j = z3.Int(fresh_name("j"))
-    arr = z3.Lambda([j], z3.If(j < la, z3.Select(a.arr, j), z3.Select(b.arr, j - la)))
+    arr = z3.Lambda([j], z3.If(j < la, a.at(j), b.at(j - la)))
     return SBytes(arr, norm_int(la + to_z3_int(b.length)))
 
 
 def sb_eq(a, b):
-    """extensional equality of two array-bytes (quantified)."""
+    """extensional equality of two array-bytes.  The quantified index is the ABSOLUTE index into a's
+    array, so that Select(a.arr, p) is an E-matching trigger without arithmetic."""
     la, lb = to_z3_int(a.length), to_z3_int(b.length)
     ca, cb = concrete_int(a.length), concrete_int(b.length)
     if ca is not None and cb is not None:
         if ca != cb:
             return z3.BoolVal(False)
         if ca <= 64:
-            return z3.And([z3.Select(a.arr, i) == z3.Select(b.arr, i) for i in range(ca)]) if ca else z3.BoolVal(True)
-    j = z3.Int(fresh_name("q"))
+            return z3.And([a.at(i) == b.at(i) for i in range(ca)]) if ca else z3.BoolVal(True)
+    p = z3.Int(fresh_name("q"))
+    ao, bo = to_z3_int(a.off), to_z3_int(b.off)
     return z3.And(la == lb,
-                  z3.ForAll([j], z3.Implies(z3.And(j >= 0, j < la), z3.Select(a.arr, j) == z3.Select(b.arr, j))))
+                  z3.ForAll([p], z3.Implies(z3.And(p >= ao, p < ao + la),
+                                            z3.Select(a.arr, p) == z3.Select(b.arr, p + (bo - ao)))))
